@@ -208,6 +208,33 @@ func attackerProofRoot(sc *issuer.Scenario) string {
 	return issuer.HexOf(root)
 }
 
+// multiProof: credentials carrying several proofs.  VerifyProof takes the FIRST proof of the
+// requested type, binds ITS core claim to the credential and verifies exactly that proof.
+func multiProof(sc *issuer.Scenario) []*issuer.Case {
+	altHex, _ := sc.ClaimAlt.Hex()
+	unrelHex, _ := sc.Unrelated.Hex()
+	// decoy: names a claim that binds to the credential but was never signed
+	decoy := sc.BJJ.Clone()
+	decoy.CoreClaim = issuer.S(altHex)
+	// a genuine signature proof of ANOTHER credential's claim of the same issuer
+	other := sc.BJJ.Clone()
+	other.CoreClaim, other.Signature = issuer.S(unrelHex), issuer.S(sc.UnrelatedSig)
+	genuine := func() *issuer.ProofJ { return sc.BJJ.Clone() }
+	mk := func(name, expect string, ps ...*issuer.ProofJ) *issuer.Case {
+		return sc.CaseOf("bjj", "multi-proof:"+name, expect, nil, sc.Env.Clone(), ps...)
+	}
+	return []*issuer.Case{
+		mk("decoy-then-genuine", "reject", decoy.Clone(), genuine()),
+		mk("decoy-then-genuine-of-other-credential", "reject", decoy.Clone(), other.Clone()),
+		mk("genuine-then-decoy", "accept", genuine(), decoy.Clone()),
+		mk("genuine-of-other-credential-then-genuine", "reject", other.Clone(), genuine()),
+		mk("genuine-twice", "accept", genuine(), genuine()),
+		mk("smt-then-bjj", "accept", sc.SMT.Clone(), genuine()),
+		mk("smt-decoy-genuine", "reject", sc.SMT.Clone(), decoy.Clone(), genuine()),
+		mk("bjj-then-smt", "accept", genuine(), sc.SMT.Clone()),
+	}
+}
+
 // Scenarios of a run.
 func Scenarios(cfg *common.Config) []issuer.Params {
 	rng := cfg.Rng
@@ -301,6 +328,10 @@ func Run(cfg *common.Config) (*common.Report, error) {
 				extra = append(extra, sc.SMT.Clone()) // a second proof of the other type rides along
 			}
 			cs = append(cs, sc.CaseOf("bjj", m.Name, m.Expect, proof, env, extra...))
+		}
+		cs = append(cs, multiProof(sc)...)
+		for len(ms) < len(cs) {
+			ms = append(ms, issuer.Mut{Name: cs[len(ms)].Fault, Expect: cs[len(ms)].Expect})
 		}
 		outs, specs, err := d.DoBatch(cs)
 		if err != nil {
